@@ -71,39 +71,48 @@ def build(config, tier):
             body += "\n    check!(%s(a.perp_dot(b), ai[0] * bi[1] - ai[1] * bi[0]), \"perp_dot exact\");" % eqi
         obs.append(Ob("%s_lattice" % pre, PROP, body, fn="%s dot/cross/..." % N, kind="lemma", solver="cadical", stubs=["sse"], cls="lattice", clauses=2, tier=tr,
                       desc="%s: dot, length_squared, distance_squared, element_sum/product%s are the exact integers on the lattice [-2,2]^%d" % (N, ", cross" if n == 3 else (", perp_dot" if n == 2 else ""), n)))
-        # sqrt family with uninterpreted sqrt
+        # sqrt family with uninterpreted sqrt: one obligation per clause (same-expression, cvc5)
         sq = "crate::uf::sqrt_f%d" % w
-        body = ("let a = mk::<{N}>(); let b = mk::<{N}>(); let l2 = a.length_squared(); let s = {sq}(l2);\n"
-                "    check!(__verif::leq{w}(a.length(), s), \"length == sqrt(length_squared)\");\n"
-                "    check!(__verif::leq{w}(a.length_recip(), (1.0 as {t}) / s), \"length_recip == 1/sqrt(..)\");\n"
-                "    check!(__verif::leq{w}(a.distance(b), {sq}(a.distance_squared(b))), \"distance == sqrt(distance_squared)\");\n"
-                "    let nz = a.normalize().to_array(); let aa = a.to_array(); let rc = (1.0 as {t}) / s;\n"
-                "    check!({lanes}, \"normalize lanes are v/len or v*(1/len)\");").format(
-            N=N, sq=sq, w=w, t=t, lanes=" && ".join("(__verif::leq%d(nz[%d], aa[%d] / s) || __verif::leq%d(nz[%d], aa[%d] * rc))" % (w, i, i, w, i, i) for i in range(n)))
-        obs.append(Ob("%s_sqrt_family" % pre, PROP, body, fn="%s::length/length_recip/distance/normalize" % N, kind="lemma", solver="cvc5", stubs=["sse", "uf_sqrt%d" % w], cls="structure", clauses=4, tier=tr,
-                      desc="%s: length, length_recip, distance, normalize in terms of an uninterpreted sqrt shared by code and spec" % N))
-        # normalize family control contract
-        body = ("let a = mk::<{N}>(); let fb = mk::<{N}>(); let rcp = a.length_recip(); let ok = rcp.is_finite() && rcp > 0.0; let v = (a * rcp).to_array();\n"
-                "    check!(match a.try_normalize() {{ Some(r) => ok && __verif::leq{w}x{n}(r.to_array(), v), None => !ok }}, \"try_normalize\");\n"
-                "    {{ let r = a.normalize_or(fb); check!(if ok {{ __verif::leq{w}x{n}(r.to_array(), v) }} else {{ __verif::leq{w}x{n}(r.to_array(), fb.to_array()) }}, \"normalize_or\"); }}\n"
-                "    {{ let r = a.normalize_or_zero(); check!(if ok {{ __verif::leq{w}x{n}(r.to_array(), v) }} else {{ __verif::leq{w}x{n}(r.to_array(), <{N}>::ZERO.to_array()) }}, \"normalize_or_zero\"); }}\n"
-                "    {{ let len = a.length(); let rc2 = (1.0 as {t}) / len; let ok2 = rc2.is_finite() && rc2 > 0.0; let (r, l) = a.normalize_and_length();\n"
-                "      check!(if ok2 {{ __verif::leq{w}x{n}(r.to_array(), (a * rc2).to_array()) && __verif::leq{w}(l, len) }} else {{ __verif::leq{w}x{n}(r.to_array(), <{N}>::X.to_array()) && l == 0.0 }}, \"normalize_and_length\"); }}").format(N=N, w=w, n=n, t=t)
-        obs.append(Ob("%s_normalize_control" % pre, PROP, body, fn="%s::try_normalize/normalize_or/normalize_or_zero/normalize_and_length" % N, kind="lemma", solver="cvc5",
-                      stubs=["sse", "uf_sqrt%d" % w], cls="control", clauses=4, tier=tr,
-                      desc="%s normalize family: the documented fallback is returned IFF !(rcp.is_finite() && rcp > 0) for the code's own reciprocal length, else v * rcp" % N))
-        # structure of the combination helpers against the contracted operations
         l4 = "__verif::leq%dx%d" % (w, n)
-        body = ("let a = mk::<{N}>(); let b = mk::<{N}>(); let s: {t} = vk::any();\n"
-                "    check!({l4}(a.lerp(b, s).to_array(), (a * ((1.0 as {t}) - s) + b * s).to_array()) || {l4}(a.lerp(b, s).to_array(), (a + (b - a) * s).to_array()), \"lerp is affine in s\");\n"
-                "    check!({l4}(a.midpoint(b).to_array(), ((a + b) * (0.5 as {t})).to_array()), \"midpoint\");\n"
-                "    check!({l4}(a.project_onto_normalized(b).to_array(), (b * a.dot(b)).to_array()), \"project_onto_normalized == b * (a.b)\");\n"
-                "    check!({l4}(a.reject_from_normalized(b).to_array(), (a - b * a.dot(b)).to_array()), \"reject_from_normalized\");\n"
-                "    {{ let k = b.dot(b).recip(); let p = a.project_onto(b).to_array(); check!({l4}(p, (b * a.dot(b) * k).to_array()) || {l4}(p, (b * (a.dot(b) * k)).to_array()) || {l4}(p, (b * (a.dot(b) / b.dot(b))).to_array()), \"project_onto == b * (a.b)/(b.b)\");\n"
-                "      check!({l4}(a.reject_from(b).to_array(), (a - a.project_onto(b)).to_array()), \"reject_from == a - project_onto\"); }}\n"
-                "    {{ let r = a.reflect(b).to_array(); check!({l4}(r, (a - (2.0 as {t}) * a.dot(b) * b).to_array()) || {l4}(r, (a - b * ((2.0 as {t}) * a.dot(b))).to_array()), \"reflect == a - 2 (a.n) n\"); }}").format(N=N, t=t, l4=l4)
-        obs.append(Ob("%s_combinators" % pre, PROP, body, fn="%s::lerp/midpoint/project_onto/reject_from/reflect" % N, kind="lemma", solver="cvc5", stubs=["sse"], cls="structure", clauses=7, tier=tr,
-                      desc="%s: lerp, midpoint, project_onto(_normalized), reject_from(_normalized), reflect are the documented combinations of the contracted dot/recip (same-expression structure)" % N))
+        fmt = dict(N=N, sq=sq, w=w, t=t, n=n, l4=l4)
+
+        def clause(sfx, fn_, text, desc_, cls="structure", stubs=("sse", "uf_sqrt%d" % w)):
+            obs.append(Ob("%s_%s" % (pre, sfx), PROP, text.format(**fmt), fn="%s::%s" % (N, fn_), kind="lemma", solver="cvc5", stubs=list(stubs), cls=cls, tier=tr,
+                          desc="%s::%s: %s" % (N, fn_, desc_)))
+
+        clause("length", "length", "let a = mk::<{N}>(); check!(__verif::leq{w}(a.length(), {sq}(a.length_squared())), \"length == sqrt(length_squared)\");",
+               "== sqrt(length_squared) with sqrt uninterpreted (shared by code and spec)")
+        clause("length_recip", "length_recip", "let a = mk::<{N}>(); check!(__verif::leq{w}(a.length_recip(), (1.0 as {t}) / {sq}(a.length_squared())), \"length_recip == 1/sqrt(..)\");",
+               "== 1 / sqrt(length_squared)")
+        clause("distance", "distance", "let a = mk::<{N}>(); let b = mk::<{N}>(); check!(__verif::leq{w}(a.distance(b), {sq}(a.distance_squared(b))), \"distance == sqrt(distance_squared)\");",
+               "== sqrt(distance_squared)")
+        clause("normalize", "normalize", "let a = mk::<{N}>(); let s = {sq}(a.length_squared()); let nz = a.normalize().to_array(); let aa = a.to_array(); let rc = (1.0 as {t}) / s;\n    check!(%s, \"normalize lanes are v/len or v*(1/len)\");"
+               % " && ".join("(__verif::leq%d(nz[%d], aa[%d] / s) || __verif::leq%d(nz[%d], aa[%d] * rc))" % (w, i_, i_, w, i_, i_) for i_ in range(n)),
+               "every lane is v/len or v*(1/len), len = sqrt(length_squared)")
+        # normalize family control contract
+        hd = "let a = mk::<{N}>(); let rcp = a.length_recip(); let ok = rcp.is_finite() && rcp > 0.0; let v = (a * rcp).to_array();\n    "
+        clause("try_normalize", "try_normalize", hd + "check!(match a.try_normalize() {{ Some(r) => ok && {l4}(r.to_array(), v), None => !ok }}, \"try_normalize\");",
+               "None IFF !(rcp.is_finite() && rcp > 0) for the code's own reciprocal length, else Some(v * rcp)", cls="control")
+        clause("normalize_or", "normalize_or", hd + "let fb = mk::<{N}>(); let r = a.normalize_or(fb); check!(if ok {{ {l4}(r.to_array(), v) }} else {{ {l4}(r.to_array(), fb.to_array()) }}, \"normalize_or\");",
+               "the fallback IFF !(rcp.is_finite() && rcp > 0), else v * rcp", cls="control")
+        clause("normalize_or_zero", "normalize_or_zero", hd + "let r = a.normalize_or_zero(); check!(if ok {{ {l4}(r.to_array(), v) }} else {{ {l4}(r.to_array(), <{N}>::ZERO.to_array()) }}, \"normalize_or_zero\");",
+               "zero IFF !(rcp.is_finite() && rcp > 0), else v * rcp", cls="control")
+        clause("normalize_and_length", "normalize_and_length",
+               "let a = mk::<{N}>(); let len = a.length(); let rc2 = (1.0 as {t}) / len; let ok2 = rc2.is_finite() && rc2 > 0.0; let (r, l) = a.normalize_and_length();\n"
+               "    check!(if ok2 {{ {l4}(r.to_array(), (a * rc2).to_array()) && __verif::leq{w}(l, len) }} else {{ {l4}(r.to_array(), <{N}>::X.to_array()) && l == 0.0 }}, \"normalize_and_length\");",
+               "(X, 0) IFF !(rcp.is_finite() && rcp > 0) with rcp = 1/length, else (v * rcp, length)", cls="control")
+        # structure of the combination helpers against the contracted operations
+        ab = "let a = mk::<{N}>(); let b = mk::<{N}>(); "
+        clause("lerp", "lerp", ab + "let s: {t} = vk::any(); check!({l4}(a.lerp(b, s).to_array(), (a * ((1.0 as {t}) - s) + b * s).to_array()) || {l4}(a.lerp(b, s).to_array(), (a + (b - a) * s).to_array()), \"lerp is affine in s\");",
+               "a*(1-s) + b*s (or a + (b-a)*s)", stubs=("sse",))
+        clause("midpoint", "midpoint", ab + "check!({l4}(a.midpoint(b).to_array(), ((a + b) * (0.5 as {t})).to_array()), \"midpoint\");", "(a+b)*0.5", stubs=("sse",))
+        clause("project_onto_normalized", "project_onto_normalized", ab + "check!({l4}(a.project_onto_normalized(b).to_array(), (b * a.dot(b)).to_array()), \"project_onto_normalized == b * (a.b)\");", "b * (a.b)", stubs=("sse",))
+        clause("reject_from_normalized", "reject_from_normalized", ab + "check!({l4}(a.reject_from_normalized(b).to_array(), (a - b * a.dot(b)).to_array()), \"reject_from_normalized\");", "a - b * (a.b)", stubs=("sse",))
+        clause("project_onto", "project_onto", ab + "let k = b.dot(b).recip(); let p = a.project_onto(b).to_array(); check!({l4}(p, (b * a.dot(b) * k).to_array()) || {l4}(p, (b * (a.dot(b) * k)).to_array()) || {l4}(p, (b * (a.dot(b) / b.dot(b))).to_array()), \"project_onto == b * (a.b)/(b.b)\");",
+               "b * (a.b) / (b.b)", stubs=("sse",))
+        clause("reject_from", "reject_from", ab + "check!({l4}(a.reject_from(b).to_array(), (a - a.project_onto(b)).to_array()), \"reject_from == a - project_onto\");", "a - project_onto(b)", stubs=("sse",))
+        clause("reflect", "reflect", ab + "let r = a.reflect(b).to_array(); check!({l4}(r, (a - (2.0 as {t}) * a.dot(b) * b).to_array()) || {l4}(r, (a - b * ((2.0 as {t}) * a.dot(b))).to_array()), \"reflect == a - 2 (a.n) n\");",
+               "a - 2 (a.n) n", stubs=("sse",))
         if n in (2, 3):
             body = ("let a = mk::<{N}>(); let nn = mk::<{N}>(); let eta: {t} = vk::any(); let ndi = nn.dot(a); let k = (1.0 as {t}) - eta * eta * ((1.0 as {t}) - ndi * ndi); let r = a.refract(nn, eta);\n"
                     "    check!(if k >= 0.0 {{ {l4}(r.to_array(), (eta * a - (eta * ndi + {sq}(k)) * nn).to_array()) }} else if k < 0.0 {{ __verif::leq{w}x{n}(r.to_array(), <{N}>::ZERO.to_array()) }} else {{ __verif::leq{w}x{n}(r.to_array(), <{N}>::ZERO.to_array()) }}, \"refract: Snell form when k >= 0, zero on total internal reflection\");").format(N=N, t=t, l4=l4, sq=sq, w=w, n=n)
